@@ -167,6 +167,18 @@ pub async fn verif_age_cache(by: Duration) {
     }
 }
 
+/// Verification hook: make the cache entries of these hosts `by` older, leaving all others alone
+/// (cases that run side by side in one process age only their own names).
+#[cfg(feature = "verif-hooks")]
+pub async fn verif_age_hosts(hosts: &[String], by: Duration) {
+    let mut cache = DNS_CACHE.inner.write().await;
+    for host in hosts {
+        if let Some(entry) = cache.get_mut(host) {
+            entry.expires_at = entry.expires_at.checked_sub(by).unwrap_or(entry.expires_at);
+        }
+    }
+}
+
 pub async fn set_custom_dns_servers(servers: &[String]) -> Result<()> {
     let mut parsed_servers = Vec::new();
     for raw in servers {
